@@ -134,7 +134,7 @@ sp_strsv(char *uplo, char *trans, char *diag, SuperMatrix *L,
 	
 	if ( strncmp(uplo, "L", 1)==0 ) {
 	    /* Form x := inv(L)*x */
-    	    if ( L->nrow == 0 ) return 0; /* Quick return */
+    	    if ( L->nrow == 0 ) { SUPERLU_FREE(work); return 0; } /* Quick return */
 	    
 	    for (k = 0; k <= Lstore->nsuper; k++) {
 		fsupc = L_FST_SUPC(k);
@@ -188,7 +188,7 @@ sp_strsv(char *uplo, char *trans, char *diag, SuperMatrix *L,
 	} else {
 	    /* Form x := inv(U)*x */
 	    
-	    if ( U->nrow == 0 ) return 0; /* Quick return */
+	    if ( U->nrow == 0 ) { SUPERLU_FREE(work); return 0; } /* Quick return */
 	    
 	    for (k = Lstore->nsuper; k >= 0; k--) {
 	    	fsupc = L_FST_SUPC(k);
@@ -233,7 +233,7 @@ sp_strsv(char *uplo, char *trans, char *diag, SuperMatrix *L,
 	
 	if ( strncmp(uplo, "L", 1)==0 ) {
 	    /* Form x := inv(L')*x */
-    	    if ( L->nrow == 0 ) return 0; /* Quick return */
+    	    if ( L->nrow == 0 ) { SUPERLU_FREE(work); return 0; } /* Quick return */
 	    
 	    for (k = Lstore->nsuper; k >= 0; --k) {
 	    	fsupc = L_FST_SUPC(k);
@@ -270,7 +270,7 @@ sp_strsv(char *uplo, char *trans, char *diag, SuperMatrix *L,
 	    }
 	} else {
 	    /* Form x := inv(U')*x */
-	    if ( U->nrow == 0 ) return 0; /* Quick return */
+	    if ( U->nrow == 0 ) { SUPERLU_FREE(work); return 0; } /* Quick return */
 	    
 	    for (k = 0; k <= Lstore->nsuper; k++) {
 	    	fsupc = L_FST_SUPC(k);
